@@ -20,8 +20,9 @@ import (
 // sentinelWrapExceptions: a wrap that is on the chain but cannot matter, keyed by sentinel | comparing function | wrapping
 // function, with the reason.
 var sentinelWrapExceptions = map[string]string{
-	"io.EOF|server.(*partition).newSubscribeLoop$1|server/commitlog.readMessage":           "the forward readers block at the end of the log and meet io.EOF only when the subscription's context is cancelled, when nobody observes the status; the end-of-iteration io.EOF is the reverse reader's, which returns it bare",
-	"io.EOF|server.(*partition).newSubscribeLoop$1|server/commitlog.(*Reader).ReadMessage": "the forward readers block at the end of the log and meet io.EOF only when the subscription's context is cancelled, when nobody observes the status; the end-of-iteration io.EOF is the reverse reader's, which returns it bare",
+	"io.EOF|server.(*partition).newSubscribeLoop$1|server/commitlog.(*ReverseReader).ReadMessage": "the wrap is on the failure path of re-initialising the reader after its segment was replaced; the end-of-iteration io.EOF is returned bare by the same function",
+	"io.EOF|server.(*partition).newSubscribeLoop$1|server/commitlog.readMessage":                  "the forward readers block at the end of the log and meet io.EOF only when the subscription's context is cancelled, when nobody observes the status; the end-of-iteration io.EOF is the reverse reader's, which returns it bare",
+	"io.EOF|server.(*partition).newSubscribeLoop$1|server/commitlog.(*Reader).ReadMessage":        "the forward readers block at the end of the log and meet io.EOF only when the subscription's context is cancelled, when nobody observes the status; the end-of-iteration io.EOF is the reverse reader's, which returns it bare",
 }
 
 type sentinelSite struct {
